@@ -208,7 +208,7 @@ func e2eParams(c *core.Ctx) gen.C06Params {
 }
 
 func runE2ECase(c *core.Ctx) {
-	dir := filepath.Join(c.Dir, fmt.Sprintf("e2e-%d", c.Idx))
+	dir := filepath.Join(c.Dir, fmt.Sprintf("e2e-%d%s", c.Idx, []string{"", "-job[7]?x*", "", ""}[c.Idx%4]))
 	os.MkdirAll(dir, 0o755)
 	defer os.RemoveAll(dir)
 
